@@ -13,6 +13,7 @@ package main
 //                (well-formed and malformed), with registrations in between; records for ExprSyntaxHist_Trace (B2)
 //   c09 cli    : runs the `rare expression` binary on the vectors that need no test function
 //   c09 eval   : one template from the command line (debugging / replay of a finding)
+//   c09 evalsched / evaltrace : the evaluation layer (ExprSyntaxEval.tla), see eval.go
 
 import (
 	"bytes"
@@ -20,12 +21,15 @@ import (
 	"errors"
 	"flag"
 	"fmt"
+	"math/big"
 	"math/rand"
 	"os"
 	"os/exec"
+	"runtime"
 	"sort"
 	"strconv"
 	"strings"
+	"sync"
 	"time"
 
 	"rare/pkg/expressions"
@@ -35,7 +39,7 @@ import (
 
 func main() {
 	vh.Main(vh.Commands{"replay": c09Replay, "trace": c09Trace, "cli": c09Cli, "eval": c09Eval,
-		"replayhist": c09ReplayHist, "histtrace": c09HistTrace})
+		"replayhist": c09ReplayHist, "histtrace": c09HistTrace, "evalsched": c09EvalSched, "evaltrace": c09EvalTrace})
 }
 
 type M = vh.M
@@ -370,7 +374,11 @@ func (a *anode) print(top bool, sb *[]int) {
 	case "grp":
 		w('{')
 		w(a.Lead...)
-		w(vh.R(strconv.Itoa(a.N))...)
+		if len(a.S) > 0 { // the integer as it is written: leading zeros, a minus sign, any number of digits
+			w(a.S...)
+		} else {
+			w(vh.R(strconv.Itoa(a.N))...)
+		}
 		w(a.Trail...)
 		closeB()
 	case "key":
@@ -431,7 +439,13 @@ func isSpaceR(c rune) bool {
 	return c >= 8192 && c <= 8202
 }
 
+// every Unicode White_Space character (ExprSyntax.tla IsSpaceU)
+var allSpaces = []rune{9, 10, 11, 12, 13, 32, 133, 160, 5760, 8192, 8193, 8194, 8195, 8196, 8197, 8198, 8199, 8200, 8201, 8202,
+	8232, 8233, 8239, 8287, 12288}
+
 type gen struct {
+	wsStyle  int  // white space between arguments and inside the braces: 0 space/tab, 1 any white-space characters, 2 wsChar only
+	wsChar   rune
 	rng      *rand.Rand
 	maxDepth int
 	maxArgs  int
@@ -443,13 +457,31 @@ func (g *gen) blanks(min, max int) []int {
 	n := min + g.rng.Intn(max-min+1)
 	out := make([]int, n)
 	for i := range out {
-		if g.rng.Intn(3) == 0 {
+		switch {
+		case g.wsStyle == 1:
+			out[i] = int(allSpaces[g.rng.Intn(len(allSpaces))])
+		case g.wsStyle == 2:
+			out[i] = int(g.wsChar)
+		case g.rng.Intn(3) == 0:
 			out[i] = '\t'
-		} else {
+		default:
 			out[i] = ' '
 		}
 	}
 	return out
+}
+
+// chooses the white-space style of the next template: half of them space/tab, a quarter any mixture of white-space
+// characters, a quarter ONE (mostly exotic) character as the only separator and padding
+func (g *gen) pickStyle() {
+	switch k := g.rng.Intn(4); {
+	case k < 2:
+		g.wsStyle = 0
+	case k == 2:
+		g.wsStyle = 1
+	default:
+		g.wsStyle, g.wsChar = 2, allSpaces[g.rng.Intn(len(allSpaces))]
+	}
 }
 
 func (g *gen) pad() []int {
@@ -487,6 +519,49 @@ func (g *gen) grpNum() int {
 		return g.rng.Intn(1000)
 	}
 	return g.rng.Intn(12)
+}
+
+var (
+	big63 = new(big.Int).Lsh(big.NewInt(1), 63)
+	big64 = new(big.Int).Lsh(big.NewInt(1), 64)
+)
+
+// writtenInt: an integer as a digit string - around the ends of the index range (2^63, 2^64 and multiples), very long,
+// with leading zeros, negative; whether it is a group reference at all is decided by the specification (ExprSyntaxIdx.tla)
+func (g *gen) writtenInt() []int {
+	var s string
+	switch g.rng.Intn(6) {
+	case 0, 1: // m * 2^64 + 2^63 * h + k
+		v := new(big.Int).Mul(big64, big.NewInt(int64(g.rng.Intn(4))))
+		if g.rng.Intn(2) == 0 {
+			v.Add(v, big63)
+		}
+		v.Add(v, big.NewInt(int64(g.rng.Intn(7)-3)))
+		s = v.Abs(v).String()
+	case 2: // any digits, 1..26 of them
+		n := 1 + g.rng.Intn(26)
+		b := make([]byte, n)
+		for i := range b {
+			b[i] = byte('0' + g.rng.Intn(10))
+		}
+		s = string(b)
+	case 3: // 18..20 digits starting like the limits
+		s = []string{"9223372036854775", "1844674407370955", "922337203685477580", "9223372036854775808"}[g.rng.Intn(4)]
+		for n := g.rng.Intn(4); n > 0; n-- {
+			s += string(rune('0' + g.rng.Intn(10)))
+		}
+	case 4:
+		s = strconv.Itoa(g.rng.Intn(13))
+	default:
+		s = strconv.Itoa(g.rng.Intn(1 << 30))
+	}
+	if g.rng.Intn(4) == 0 {
+		s = strings.Repeat("0", 1+g.rng.Intn(3)) + s
+	}
+	if g.rng.Intn(4) == 0 {
+		s = "-" + s
+	}
+	return vh.R(s)
 }
 
 func (g *gen) argLit() *anode {
@@ -570,7 +645,11 @@ func (g *gen) stmt(d int) *anode {
 	switch {
 	case k < 2 || (d >= g.maxDepth && k < 5):
 		a = newNode("grp")
-		a.N = g.grpNum()
+		if g.rng.Intn(6) == 0 {
+			a.S = g.writtenInt()
+		} else {
+			a.N = g.grpNum()
+		}
 	case k < 4 || d >= g.maxDepth:
 		a = newNode("key")
 		a.S = g.keyWord()
@@ -724,6 +803,7 @@ func c09Trace(args []string) error {
 	for i := 0; i < *n; i++ {
 		g.maxDepth = 1 + g.rng.Intn(4)
 		g.maxArgs = 1 + g.rng.Intn(4)
+		g.pickStyle()
 		tpl := g.tpl()
 		if g.rng.Intn(100) < 30 {
 			g.mutate(tpl)
@@ -739,15 +819,63 @@ func c09Trace(args []string) error {
 			tpl = []*anode{}
 		}
 		s := vh.RunesFromInts(text)
-		r1, r2 := run(s, true), run(s, false)
+		r1, c1 := compileOn(newBuilder(true), s)
+		r2, c2 := compileOn(newBuilder(false), s)
 		p := r1.Panic
 		if p == "" {
 			p = r2.Panic
 		}
+		// the compiled templates evaluated by several goroutines at once, each against its own context
+		conc := []M{}
+		if kind == "tree" && p == "" && len(r1.Errs) == 0 && len(r2.Errs) == 0 && c1 != nil && c2 != nil {
+			var cp string
+			conc, cp = concEval([]*expressions.CompiledKeyBuilder{c1, c2}, 3, 4)
+			p = cp
+		}
 		w.Write(M{"kind": kind, "tpl": tpl, "text": text, "out": vh.R(r1.Out), "errs": r1.Errs, "errn": r1.errn(),
-			"out2": vh.R(r2.Out), "errs2": r2.Errs, "errn2": r2.errn(), "panic": p != "", "pmsg": p})
+			"out2": vh.R(r2.Out), "errs2": r2.Errs, "errn2": r2.errn(), "panic": p != "", "pmsg": p, "conc": conc})
 	}
 	return nil
+}
+
+// concEval: every compiled template is evaluated `rounds` times by each of `workers` goroutines (all started together,
+// yielding the processor in every context lookup); returns the distinct (worker, output) pairs observed
+func concEval(cs []*expressions.CompiledKeyBuilder, workers, rounds int) (outs []M, pmsg string) {
+	outs = []M{}
+	var mu sync.Mutex
+	var wg sync.WaitGroup
+	seen := map[string]bool{}
+	start := make(chan struct{})
+	for _, c := range cs {
+		for k := 1; k <= workers; k++ {
+			wg.Add(1)
+			go func(c *expressions.CompiledKeyBuilder, k int) {
+				defer wg.Done()
+				defer func() {
+					if r := recover(); r != nil {
+						mu.Lock()
+						pmsg = fmt.Sprint(r)
+						mu.Unlock()
+					}
+				}()
+				ctx := &workerCtx{w: k, gate: runtime.Gosched}
+				<-start
+				for r := 0; r < rounds; r++ {
+					o := c.BuildKey(ctx)
+					key := strconv.Itoa(k) + "\x00" + o
+					mu.Lock()
+					if !seen[key] && len(outs) < 24 {
+						seen[key] = true
+						outs = append(outs, M{"w": k, "out": vh.R(o)})
+					}
+					mu.Unlock()
+				}
+			}(c, k)
+		}
+	}
+	close(start)
+	wg.Wait()
+	return
 }
 
 // ---------------------------------------------------------------------------- the command line (sample)
@@ -756,8 +884,21 @@ var cliData = []string{"<d0>", "<d1>", "<d2>", "<d3>", "<d4>", "<d5>", "<d6>", "
 var cliKeys = map[string]string{"k": "<Kk>", "a1": "<Ka1>", "1a": "<K1a>", "é_": "<Ke_>"}
 var cliSpecial = map[string]bool{"src": true, "line": true, ".": true, "#": true, ".#": true, "#.": true, "@": true}
 
-// expected stdout: the spelling with the recording context replaced by the -d / -k values
-func cliExpect(spelled []int) (string, bool) {
+// a key whose name is a written integer (a number beyond the index range is a key like any other word)
+func isIntName(s string) bool {
+	if s == "" {
+		return false
+	}
+	for i, c := range s {
+		if !(c >= '0' && c <= '9') && !(i == 0 && c == '-' && len(s) > 1) {
+			return false
+		}
+	}
+	return true
+}
+
+// expected stdout: the spelling with the recording context replaced by the -d / -k values; extra: -k pairs the run needs
+func cliExpect(spelled []int) (want string, ok bool, extra []string) {
 	var sb strings.Builder
 	rs := []rune(vh.RunesFromInts(spelled))
 	for i := 0; i < len(rs); i++ {
@@ -779,18 +920,23 @@ func cliExpect(spelled []int) (string, bool) {
 				}
 			} else {
 				if cliSpecial[name] {
-					return "", false
+					return "", false, nil
 				}
-				sb.WriteString(cliKeys[name])
+				if isIntName(name) {
+					extra = append(extra, name+"=<K"+name+">")
+					sb.WriteString("<K" + name + ">")
+				} else {
+					sb.WriteString(cliKeys[name])
+				}
 			}
 			i = j
 		case mFO, mFA, mFS, mFC:
-			return "", false
+			return "", false, nil
 		default:
 			sb.WriteRune(rs[i])
 		}
 	}
-	return sb.String(), true
+	return sb.String(), true, extra
 }
 
 var cliMsg = map[string]string{"unterminated": "non-terminated statement", "empty": "empty statement", "unknownFunc": "missing function"}
@@ -824,6 +970,24 @@ func c09Cli(args []string) error {
 			by[v.Kind] = append(by[v.Kind], v)
 		}
 		cands = cands[:0]
+		// first a share of the groups that ordinary sampling would hardly meet: written integers at the ends of the index
+		// range, every white-space character as the only separator
+		for _, q := range []struct {
+			g string
+			n int
+		}{{"idx", *max / 6}, {"ws", *max / 8}, {"wserr", *max / 8}} {
+			k := 0
+			for _, kd := range []string{"rt", "err"} {
+				for _, v := range by[kd] {
+					if v.G == q.g && k < q.n {
+						if _, ok, _ := cliExpect(v.Out); ok || v.Kind == "err" {
+							cands = append(cands, v)
+							k++
+						}
+					}
+				}
+			}
+		}
 		for i := 0; len(cands) < 4**max; i++ {
 			added := false
 			for _, k := range []string{"rt", "err", "esc"} {
@@ -846,19 +1010,23 @@ func c09Cli(args []string) error {
 	}
 	var mism []M
 	samples := []M{}
-	runs, kinds := 0, map[string]int{}
+	runs, kinds, groups := 0, map[string]int{}, map[string]int{}
 	for _, v := range cands {
 		if runs >= *max {
 			break
 		}
 		text := vh.RunesFromInts(v.Text)
 		want, ok := "", true
+		var extra []string
 		if v.Kind != "err" {
-			if want, ok = cliExpect(v.Out); !ok {
+			if want, ok, extra = cliExpect(v.Out); !ok {
 				continue
 			}
 		}
 		a := append([]string{}, base...)
+		for _, kv := range extra {
+			a = append(a, "-k", kv)
+		}
 		if runs%2 == 1 {
 			a = append(a, "--no-optimize")
 		}
@@ -873,6 +1041,7 @@ func c09Cli(args []string) error {
 		}
 		runs++
 		kinds[v.Kind]++
+		groups[v.G]++
 		class := ""
 		if strings.Contains(se.String(), "panic:") || strings.Contains(se.String(), "goroutine ") {
 			class = "panic"
@@ -897,7 +1066,7 @@ func c09Cli(args []string) error {
 			samples = append(samples, M{"kind": v.Kind, "text": text, "stdout": so.String(), "stderr": strings.TrimSpace(se.String())})
 		}
 	}
-	vh.WriteJSON(*out, M{"runs": runs, "kinds": kinds, "mismatches": mism, "samples": samples, "candidates": len(cands)})
+	vh.WriteJSON(*out, M{"runs": runs, "kinds": kinds, "mismatches": mism, "samples": samples, "candidates": len(cands), "groups": groups})
 	return nil
 }
 
